@@ -43,6 +43,12 @@ def gen_requests(rng, nleaves, big):
         reqs.append((k, base + 5))
         reqs.append((k, base + edge + 1024))
         reqs.append((k, base + edge + 1026))
+        # generations skipped long ago stay retrievable: the window bounds each jump, not the age
+        # of a stored key (a hole followed by several in-window jumps that carry the ratchet far away)
+        reqs.append((k, base + edge + 1024 + 700))
+        reqs.append((k, base + edge + 1024 + 1500))
+        for old in (base + 7, base + edge - 1, base + edge + 3, base + edge + 1024 + 2, base + 7):
+            reqs.append((k, old))
     return reqs
 
 
